@@ -6,7 +6,7 @@
   parameters that see the entry's current duration the way the Go calculators do.  Proofs.TableRefine shows, for every
   configuration the spec can express (no policy / creating / writing / accessing / per-key tables, for expiry and refresh),
   every table, key, value and clock reading within ±2^62:
-      Set, SetIfAbsent, Invalidate and GetIfPresent of Impl.Table produce the spec's new map, the spec's result and the
+      Set, SetIfAbsent, Invalidate, GetIfPresent and Compute's critical section of Impl.Table produce the spec's new map, the spec's result and the
       spec's atomic deletion events.
   Below: those theorems, and the ties between the model's tests and the regenerated ones of cache_impl.go (Gen.CacheRead,
   Gen.Deadline).  The proof of the read rule is what exposed finding F19 (|d - current| > 0 overflowing for MinInt64).
@@ -51,6 +51,16 @@ theorem c01_getIfPresent_refines (c : Cfg) (s : Spec.State) (t : Tbl) (k : Nat) 
     absT (getIfPresent (cfgOf c) t k s.now).1 = (Spec.getIfPresent c s k).1.m ∧
     (getIfPresent (cfgOf c) t k s.now).2 = (Spec.getIfPresent c s k).2 :=
   getIfPresent_refines c s t k hs hnow hwf hr
+
+/-- Compute's critical section for every answer of the remapping function (write / invalidate / cancel / panic / invalid op):
+    a cancelled Compute leaves a visible entry alone and removes an expired one (reported as Expiration) -/
+theorem c01_compute_refines (c : Cfg) (s : Spec.State) (t : Tbl) (k : Nat) (act : Spec.Act) (hs : s.m = absT t)
+    (hnow : -4611686018427387904 < s.now ∧ s.now < 4611686018427387904)
+    (hwf : ∀ o, lookup t k = some o → NodeOk k o) (hk1 : KindOk c.expiry) (hk2 : KindOk c.refresh) :
+    absT (computeStep (cfgOf c) t k act s.now).1 = (Spec.computeStep c s k act).1.m ∧
+    (computeStep (cfgOf c) t k act s.now).2.1 = (Spec.computeStep c s k act).2.1 ∧
+    (computeStep (cfgOf c) t k act s.now).2.2 = (Spec.computeStep c s k act).2.2 :=
+  computeStep_refines c s t k act hs hnow hwf hk1 hk2
 
 /-- C03: a lookup finds a node iff the spec's entry is live; C06: the cause is Expiration iff the deadline has passed -/
 theorem c03_visibility_and_cause (n : TNode) (now : Int) (c : Cause) :
